@@ -16,7 +16,7 @@ use libc::{c_int, c_void, off64_t, size_t, ssize_t};
 
 #[derive(Clone, Debug)]
 pub enum Io {
-    Write { off: u64, data: Vec<u8>, flen_after: u64 },
+    Write { off: u64, data: Vec<u8>, flen_after: u64, short: bool },
     Sync { flen: u64 },
     Fail { what: &'static str, index: i64, errno: i32, partial: usize },
 }
@@ -170,7 +170,7 @@ pub unsafe extern "C" fn write(fd: c_int, buf: *const c_void, count: size_t) -> 
             if r > 0 {
                 let data = std::slice::from_raw_parts(buf as *const u8, r as usize).to_vec();
                 let fl = file_len(fd);
-                LOG.lock().unwrap().push(Io::Write { off: off as u64, data, flen_after: fl });
+                LOG.lock().unwrap().push(Io::Write { off: off as u64, data, flen_after: fl, short: true });
                 // the next call (write_all retries the rest) fails
                 FAIL_AT.store(idx + 1, Ordering::SeqCst);
                 FAIL_KIND.store(0, Ordering::SeqCst);
@@ -186,7 +186,7 @@ pub unsafe extern "C" fn write(fd: c_int, buf: *const c_void, count: size_t) -> 
     if r > 0 {
         let data = std::slice::from_raw_parts(buf as *const u8, r as usize).to_vec();
         let fl = file_len(fd);
-        LOG.lock().unwrap().push(Io::Write { off: off as u64, data, flen_after: fl });
+        LOG.lock().unwrap().push(Io::Write { off: off as u64, data, flen_after: fl, short: false });
     }
     r
 }
@@ -205,7 +205,7 @@ pub unsafe extern "C" fn pwrite64(fd: c_int, buf: *const c_void, count: size_t, 
     if r > 0 {
         let data = std::slice::from_raw_parts(buf as *const u8, r as usize).to_vec();
         let fl = file_len(fd);
-        LOG.lock().unwrap().push(Io::Write { off: offset as u64, data, flen_after: fl });
+        LOG.lock().unwrap().push(Io::Write { off: offset as u64, data, flen_after: fl, short: false });
     }
     r
 }
